@@ -208,3 +208,82 @@ package keeper
 //@   ensures ledger_frame: forall a:Bytes :: forall d:Str :: a != MOD && a != COLLECTOR && a != sender ==> bal(a, d) == old(bal(a, d))
 //@   ensures pool_record: err == nil ==> pools == set(old(pools), poolId, with(with(pl, "LastHeightDistrRewards", height), "Rules", zero(pl.Rules)))
 //@ end
+
+// ---------------------------------------------------------------------------------------------
+// C05 aggregates (finite sums as uninterpreted functions with their single-key update rules)
+
+// sum of the recorded stakes of all farmers of pool p
+//@ define LOCKED(F, p) = uf("lockedSum", F, p)
+//@ define lockedAt(F, a, p) = ite(has(F, a, p), get(F, a, p).Locked, 0)
+//@ axiom lockedUpd(F, a, p, v)
+//@   ensures forall q:Str :: LOCKED(set(F, a, p, v), q) == LOCKED(F, q) + ite(q == p, v.Locked - lockedAt(F, a, p), 0)
+//@ axiom lockedDel(F, a, p)
+//@   ensures forall q:Str :: LOCKED(del(F, a, p), q) == LOCKED(F, q) - ite(q == p, lockedAt(F, a, p), 0)
+// a sum of non-negative stakes is at least each summand
+//@ axiom lockedGe(F, a, p)
+//@   requires forall b:Str :: has(F, b, p) ==> get(F, b, p).Locked >= 0
+//@   ensures LOCKED(F, p) >= lockedAt(F, a, p)
+// (i) for every pool the recorded total equals the sum of the farmers' recorded stakes
+//@ define stakeInvAt(p) = has(pools, p) ==> LOCKED(farmers, p) == POOL(p).TotalLptLocked.Amount
+//@ define stakeInv = forall p:Str :: stakeInvAt(p)
+
+// staked tokens of denomination d recorded by all pools, and reward budget of denomination d not yet released
+//@ define STAKED(P, d) = uf("stakedSum", P, d)
+//@ define stakedAt(P, p, d) = ite(has(P, p) && get(P, p).TotalLptLocked.Denom == d, get(P, p).TotalLptLocked.Amount, 0)
+//@ axiom stakedUpd(P, p, v)
+//@   ensures forall d:Str :: STAKED(set(P, p, v), d) == STAKED(P, d) - stakedAt(P, p, d) + ite(v.TotalLptLocked.Denom == d, v.TotalLptLocked.Amount, 0)
+//@ define REM(R, d) = uf("remSum", R, d)
+//@ define remAt(R, p, d) = ite(has(R, p, d), get(R, p, d).RemainingReward, 0)
+// two rule tables that agree outside pool p differ in the sum by the difference at p
+//@ axiom remDiff(R, R2, p)
+//@   requires forall q:Str :: forall d:Str :: q != p ==> has(R2, q, d) == has(R, q, d) && get(R2, q, d) == get(R, q, d)
+//@   ensures forall d:Str :: REM(R2, d) == REM(R, d) - remAt(R, p, d) + remAt(R2, p, d)
+// (ii) the farm escrow account holds exactly the staked tokens plus the reward budgets not yet released
+//@ define escrowInv = forall d:Str :: bal(MOD, d) == STAKED(pools, d) + REM(ruleF, d)
+
+// Stake: escrow the tokens, release the pool's rewards up to now, pay the pending reward of the old position and
+// record the larger position with its new debt.
+//@ func Keeper.Stake
+//@   property C05, C06
+//@   returns reward, err
+//@   requires rulesWF && rulesOK
+//@   requires sender != COLLECTOR && sender != MOD && !blocked[sender] && height >= 0
+//@   requires lpToken.Amount > 0 && ufb("denom_valid", lpToken.Denom)
+//@   requires has(pools, poolId) ==> poolOK(POOL(poolId)) && POOL(poolId).Id == poolId
+//@   requires has(farmers, bech(sender), poolId) ==> posWF(bech(sender), poolId)
+//@   let pl = POOL(poolId)
+//@   let fi = FARMER(bech(sender), poolId)
+//@   let had = has(farmers, bech(sender), poolId)
+//@   let L0 = ite(has(farmers, bech(sender), poolId), FARMER(bech(sender), poolId).Locked, 0)
+//@   let lp = lpToken.Denom
+//@   uses ridxRange(POOL(poolId).Rules, "")
+//@   uses ridxHit(POOL(poolId).Rules, 0)
+//@   modifies ruleF, pools, bal, farmers
+//@   ensures guards:   err == nil ==> old(has(pools, poolId)) && pl.StartHeight <= height && height <= pl.EndHeight && lp == pl.TotalLptLocked.Denom
+//@   ensures rules:    err == nil ==> (forall d:Str :: has(ruleF, poolId, d) == old(has(ruleF, poolId, d))
+//@                       && (has(ruleF, poolId, d) ==> RULE(poolId, d) == ite(releasing(pl), updRule(old(RULE(poolId, d)), pl), old(RULE(poolId, d)))))
+//@   ensures rule_frame: forall p:Str :: forall d:Str :: p != poolId ==> has(ruleF, p, d) == old(has(ruleF, p, d)) && RULE(p, d) == old(RULE(p, d))
+//@   ensures paid:     err == nil ==> (forall d:Str :: amt(reward, d) == ite(has(ruleF, poolId, d) && had,
+//@                       min(pend(RULE(poolId, d), L0, amt(fi.RewardDebt, d)), max(0, old(bal(COLLECTOR, d)) + relD(pl, d))), 0))
+//@   ensures position: err == nil ==> has(farmers, bech(sender), poolId) && FARMER(bech(sender), poolId).Locked == L0 + lpToken.Amount
+//@                       && FARMER(bech(sender), poolId).PoolId == poolId && FARMER(bech(sender), poolId).Address == bech(sender)
+//@                       && (forall d:Str :: amt(FARMER(bech(sender), poolId).RewardDebt, d) == ite(has(ruleF, poolId, d), debtOf(RULE(poolId, d), L0 + lpToken.Amount), 0))
+//@   ensures position_set: err == nil ==> farmers == set(old(farmers), bech(sender), poolId, FARMER(bech(sender), poolId))
+//@   ensures farmers_frame: err != nil ==> farmers == old(farmers)
+//@   ensures ledger:   err == nil ==> (forall d:Str :: bal(MOD, d) == old(bal(MOD, d)) - relD(pl, d) + ite(d == lp, lpToken.Amount, 0)
+//@                       && bal(COLLECTOR, d) == old(bal(COLLECTOR, d)) + relD(pl, d) - amt(reward, d)
+//@                       && bal(sender, d) == old(bal(sender, d)) + amt(reward, d) - ite(d == lp, lpToken.Amount, 0))
+//@   ensures ledger_frame: forall a:Bytes :: forall d:Str :: a != MOD && a != COLLECTOR && a != sender ==> bal(a, d) == old(bal(a, d))
+//@   ensures pool_record: err == nil ==> pools == set(old(pools), poolId, with(with(with(pl, "TotalLptLocked", coin(pl.TotalLptLocked.Denom, pl.TotalLptLocked.Amount + lpToken.Amount)),
+//@                           "LastHeightDistrRewards", height), "Rules", zero(pl.Rules)))
+// (i) the pool's total moves with the farmer's stake, other pools are untouched
+//@   lemma @return lockedUpd(old(farmers), bech(sender), poolId, FARMER(bech(sender), poolId)) if err == nil
+//@   ensures stake_sum: err == nil ==> (old(stakeInvAt(poolId)) ==> stakeInvAt(poolId))
+//@                       && (forall q:Str :: q != poolId ==> LOCKED(farmers, q) == old(LOCKED(farmers, q)))
+//@   by stake_sum: ens:position_set, ens:position, ens:pool_record, lemma
+// (ii) escrow == staked + unreleased budgets is preserved
+//@   lemma @return stakedUpd(old(pools), poolId, POOL(poolId)) if err == nil
+//@   lemma @return remDiff(old(ruleF), ruleF, poolId) if err == nil
+//@   ensures escrow:   err == nil && old(escrowInv) ==> escrowInv
+//@   by escrow: ens:ledger, ens:pool_record, ens:rules, ens:rule_frame, ens:guards, lemma, req
+//@ end
